@@ -183,6 +183,14 @@ Print Assumptions render_shift.
 
 (* ---------------- the UNREPAIRED code violates two clauses (witnesses) ---------------- *)
 
+(* whenever the unrepaired loop returns an image, it is the image of the repaired loop (so the
+   two defects are confined to raising and to the unit tag) *)
+Theorem unrepaired_returns_same_image : forall ev bbox_shape ev_unit c t u img,
+  render_orig ev bbox_shape ev_unit c t = Img u img ->
+  exists u', render ev bbox_shape ev_unit c t = Img u' img.
+Proof. exact render_orig_agrees. Qed.
+Print Assumptions unrepaired_returns_same_image.
+
 (* /repo HEAD, unit-ful model (ev_unit = Some 1): the same two rows render in one order and
    raise UnitTypeError in the other (first row off the image); with every row off the image
    the result carries no unit although the model has one *)
